@@ -247,13 +247,13 @@ Section JobmapFacts.
 
   Lemma fresh_valid_iff p st nm : valid p (Some (COut (fresh p st nm))) = true <-> outcome nm (cnt st nm) = OSucceed.
   Proof.
-    unfold Jobmap.fresh, valid. destruct (outcome nm (cnt st nm)); simpl; rewrite ?String.eqb_refl, ?orb_true_r; simpl;
+    unfold Jobmap.fresh, valid. destruct (outcome nm (cnt st nm)) as [|[c|c]|[c|c]|]; simpl; rewrite ?String.eqb_refl, ?orb_true_r; simpl;
       split; intro H; try reflexivity; try discriminate.
   Qed.
 
   Lemma fresh_good_iff p st nm : good (Some (COut (fresh p st nm))) <> None <-> outcome nm (cnt st nm) = OSucceed.
   Proof.
-    unfold Jobmap.fresh, good. destruct (outcome nm (cnt st nm)); simpl; split; intro H; try reflexivity; try discriminate; try congruence.
+    unfold Jobmap.fresh, good. destruct (outcome nm (cnt st nm)) as [|[c|c]|[c|c]|]; simpl; split; intro H; try reflexivity; try discriminate; try congruence.
   Qed.
 
   (* entries already in the destination (source keys or not) are never changed *)
@@ -401,7 +401,7 @@ Section JobmapFacts.
     intros Hk Ha Hwf nm o Hc Ho. pose proof (runlist_nodup p st Ha) as Hr.
     destruct (jobmap_spec p st Hk Hr) as (_ & _ & Hcc & _). cbv zeta in *.
     rewrite Hcc in Hc. destruct (mem nm (runlist p st)); [|now apply (Hwf nm o)].
-    injection Hc as <-. unfold Jobmap.fresh in *. destruct (outcome nm (cnt st nm)); simpl in *; try reflexivity; discriminate.
+    injection Hc as <-. unfold Jobmap.fresh in *. destruct (outcome nm (cnt st nm)) as [|[c|c]|[c|c]|]; simpl in *; try reflexivity; discriminate.
   Qed.
 
   (* ---- any number of reruns with the same arguments *)
@@ -526,7 +526,7 @@ Proof.
   - rewrite (Ha x (or_introl eq_refl)). apply IH; [|exact Hc]. intros y Hy. apply Ha. now right.
 Qed.
 
-Definition unname (c : cstep) : cstep := mk_cs false (cs_write c) (cs_code c).
+Definition unname (c : cstep) : cstep := mk_cs false (cs_write c) (cs_code c) (cs_crash c).
 Lemma run_cmds_naming_irrelevant l : forall file, run_cmds file (map unname l) = run_cmds file l.
 Proof. induction l as [|c r IH]; intro file; simpl; [reflexivity|]. destruct (cs_code c); [reflexivity|apply IH]. Qed.
 
@@ -538,8 +538,9 @@ Section CmdsRunLocal.
 
   Definition summary (c : Z) (file : bool) : okind :=
     match c with
-    | Zpos k => if file then OFailFile k else OFail k
-    | _ => if file then OSucceed else OOmit
+    | Zpos k => if file then OFailFile (Exit k) else OFail (Exit k)
+    | Zneg s => if file then OFailFile (Signal s) else OFail (Signal s)      (* the command was killed by signal s *)
+    | Z0 => if file then OSucceed else OOmit
     end.
 
   Definition cmd_names (cs : list (cstep * option string)) : list string :=
@@ -563,7 +564,7 @@ Section CmdsRunLocal.
   Qed.
 
   Lemma loop_summary e cs : cs <> [] -> rf_free cs -> forall f,
-    exists c, last_code (loop cstep exec e cs f) = Some c /\ (0 <= c)%Z
+    exists c, last_code (loop cstep exec e cs f) = Some c
               /\ summary c (dhas rf (final_fs f (loop cstep exec e cs f))) = run_cmds (dhas rf f) (map fst cs).
   Proof.
     induction cs as [|[c0 nm] r IH]; intros Hne Hfree f; [congruence|].
@@ -572,13 +573,14 @@ Section CmdsRunLocal.
     pose proof (step_file nm c0 e f Hnm) as Hfile.
     simpl loop. simpl map. simpl run_cmds. simpl r_code. unfold cs_exit.
     destruct (cs_code c0) as [k|] eqn:Ec.
-    - exists (Zpos k). split; [unfold last_code; simpl; unfold cs_exit; now rewrite Ec|]. split; [lia|]. simpl. rewrite Hfile. reflexivity.
+    - exists (ecode_Z k). split; [unfold last_code; destruct k; simpl; unfold cs_exit; now rewrite Ec|].
+      destruct k; simpl; rewrite Hfile; reflexivity.
     - simpl Z.eqb. cbv iota.
       destruct r as [|c1 r].
-      + exists 0%Z. split; [unfold last_code; simpl; unfold cs_exit; now rewrite Ec|]. split; [lia|]. simpl. rewrite Hfile. reflexivity.
+      + exists 0%Z. split; [unfold last_code; simpl; unfold cs_exit; now rewrite Ec|]. simpl. rewrite Hfile. reflexivity.
       + set (f1 := close_caps nm (exec c0 e (open_caps nm f))) in *.
-        destruct (IH ltac:(discriminate) (fun c n Hc => Hfree c n (or_intror Hc)) f1) as [c [Hl [Hc Hs]]].
-        exists c. split; [|split; [exact Hc|]].
+        destruct (IH ltac:(discriminate) (fun c n Hc => Hfree c n (or_intror Hc)) f1) as [c [Hl Hs]].
+        exists c. split.
         * rewrite last_code_cons; [exact Hl|]. apply loop_nonempty. discriminate.
         * cbn [final_fs st_after]. rewrite Hs, Hfile. reflexivity.
   Qed.
@@ -617,7 +619,7 @@ Section CmdsRunLocal.
       destruct Hx as [<-|[<-|[]]]; congruence. }
     destruct (captures_exact cstep exec (cap_files cstep (ji_cmds inp)) Hkeep e (ji_cmds inp) f0 Hnd' (fun x H => H))
       as [so [se [Hso [Hse _]]]].
-    destruct (loop_summary e (ji_cmds inp) Hne Hfree f0) as [c [Hl [Hc0 Hs]]]. fold sts in Hl, Hs, Hso, Hse.
+    destruct (loop_summary e (ji_cmds inp) Hne Hfree f0) as [c [Hl Hs]]. fold sts in Hl, Hs, Hso, Hse.
     unfold body. cbv zeta. fold f0 e sts. rewrite Hso, Hse, Hl. simpl fst.
     eexists _, _. split; [reflexivity|]. simpl jo_exitcode. simpl jo_files. simpl jo_hash.
     unfold requested. rewrite Hret. rewrite <- Hs.
@@ -626,7 +628,7 @@ Section CmdsRunLocal.
     { unfold dhas. rewrite collect_spec. simpl. now rewrite String.eqb_refl. }
     assert (Hall : all_present f [rf] = dhas rf f) by (simpl; apply andb_true_r).
     rewrite Hcol, Hall.
-    destruct c as [|k|k]; [| |lia]; destruct (dhas rf f); simpl; repeat split; intros; try reflexivity; try discriminate.
+    destruct c as [|k|k]; destruct (dhas rf f); simpl; repeat split; intros; try reflexivity; try discriminate.
   Qed.
 End CmdsRunLocal.
 
@@ -650,3 +652,281 @@ Proof.
   assert (kl' = kl) by (apply (flat_map_unique (names p) (js_src st) Ha kl' kl nm); assumption).
   now subst kl'.
 Qed.
+
+(* ================================================================== round 3: the handle's key view; a runner that dies *)
+Lemma mem_keys_dhas {V} k (d : list (string * V)) : mem k (map fst d) = dhas k d.
+Proof.
+  unfold dhas, mem. induction d as [|[k' v] r IH]; simpl; [reflexivity|].
+  destruct (String.eqb k k'); simpl; [reflexivity|exact IH].
+Qed.
+
+(* the work list computed from the view taken inside `destination.reading()` is the work list of the FILE *)
+Lemma todo_seen_refreshed st : todo_seen (map fst (js_dst st)) st = todo st.
+Proof. unfold todo_seen, todo. apply filter_ext. intro kl. now rewrite mem_keys_dhas. Qed.
+
+Lemma runlist_seen_refreshed p st : runlist_seen p (map fst (js_dst st)) st = runlist p st.
+Proof. unfold runlist_seen, runlist. now rewrite todo_seen_refreshed. Qed.
+
+(* ... whereas a view that was not refreshed (fresh handle on a pre-populated file: the empty set) sends an item that
+   is already in the destination to be executed again *)
+Lemma stale_view_refuted :
+  let st := mk_js [("a", 1%nat); ("b", 1%nat)] [("a", [("A", 0%N)])] [("a", COut (mk_out "B" 0 true 0%N))] [("a", 1%N)] in
+  let p := mk_jp "A" true false in
+  let ok := fun (_ : string) (_ : N) => OSucceed in
+  let nocrash := fun (_ : string) (_ : N) => false in
+  runlist_seen p [] st = ["a"; "b"] /\ runlist p st = ["b"]
+  /\ cnt (jobmapX_seen ok nocrash false p [] st) "a" = 2%N
+  /\ cnt (jobmapX ok nocrash false p st) "a" = 1%N.
+Proof. cbv zeta. repeat split; reflexivity. Qed.
+
+Lemma dget_drm_same {V} k (d : list (string * V)) : dget k (drm k d) = None.
+Proof.
+  unfold drm. induction d as [|[k' v] r IH]; simpl; [reflexivity|].
+  destruct (String.eqb k k') eqn:E; simpl; [exact IH|]. rewrite E. exact IH.
+Qed.
+
+Lemma dget_drm_other {V} k k' (d : list (string * V)) : k <> k' -> dget k (drm k' d) = dget k d.
+Proof.
+  intro H. unfold drm. induction d as [|[k2 v] r IH]; simpl; [reflexivity|].
+  destruct (String.eqb k' k2) eqn:E; simpl.
+  - apply String.eqb_eq in E. subst k2. destruct (String.eqb k k') eqn:E2; [apply String.eqb_eq in E2; contradiction|exact IH].
+  - destruct (String.eqb k k2); [reflexivity|exact IH].
+Qed.
+
+Lemma o_arg_out_of a k n : o_arg (out_of a k n) = a.
+Proof. destruct k; reflexivity. Qed.
+
+Section JobmapXFacts.
+  Variable outcome : string -> N -> okind.
+  Variable crashes : string -> N -> bool.
+  Notation exec_oneX := (exec_oneX outcome crashes).
+  Notation jobmapX := (jobmapX outcome crashes).
+
+  (* the cache entry of an executed item afterwards: the fresh output; nothing when the runner died (before the
+     repair: whatever was there) *)
+  Definition after_exec (br : bool) (p : jparams) (st : jstate) (nm : string) : option centry :=
+    if crashes nm (cnt st nm) then (if br then dget nm (js_cache st) else None)
+    else Some (COut (fresh outcome p st nm)).
+
+  Lemma cnt_exec_oneX br p st a nm :
+    cnt (exec_oneX br p st a) nm = if String.eqb nm a then (cnt st a + 1)%N else cnt st nm.
+  Proof.
+    unfold Jobmap.exec_oneX. destruct (crashes a (cnt st a)); [|apply cnt_exec_one].
+    unfold cnt at 1. simpl. rewrite dget_dset. destruct (String.eqb nm a); reflexivity.
+  Qed.
+
+  Lemma cache_exec_oneX_other br p st a nm : nm <> a -> dget nm (js_cache (exec_oneX br p st a)) = dget nm (js_cache st).
+  Proof.
+    intro H. unfold Jobmap.exec_oneX. destruct (crashes a (cnt st a)); simpl.
+    - destruct br; [reflexivity|now apply dget_drm_other].
+    - now apply dget_dset_other.
+  Qed.
+
+  Lemma cache_exec_oneX_same br p st a : dget a (js_cache (exec_oneX br p st a)) = after_exec br p st a.
+  Proof.
+    unfold Jobmap.exec_oneX, after_exec. destruct (crashes a (cnt st a)); simpl.
+    - destruct br; [reflexivity|apply dget_drm_same].
+    - apply dget_dset_same.
+  Qed.
+
+  Lemma src_dst_exec_oneX br p st a : js_src (exec_oneX br p st a) = js_src st /\ js_dst (exec_oneX br p st a) = js_dst st.
+  Proof. unfold Jobmap.exec_oneX. destruct (crashes a (cnt st a)); simpl; split; reflexivity. Qed.
+
+  (* without a dying runner nothing is new *)
+  Lemma fold_crash_free br p l : forall st, NoDup l -> (forall nm, In nm l -> crashes nm (cnt st nm) = false) ->
+    fold_left (exec_oneX br p) l st = fold_left (exec_one outcome p) l st.
+  Proof.
+    induction l as [|a l IH]; intros st Hnd Hc; simpl; [reflexivity|].
+    inversion Hnd as [|? ? Ha Hnd']; subst.
+    assert (E : exec_oneX br p st a = exec_one outcome p st a).
+    { unfold Jobmap.exec_oneX. now rewrite (Hc a (or_introl eq_refl)). }
+    rewrite E. apply IH; [exact Hnd'|].
+    intros nm Hnm. rewrite cnt_exec_one. destruct (String.eqb nm a) eqn:En.
+    - apply String.eqb_eq in En. subst. contradiction.
+    - apply Hc. now right.
+  Qed.
+
+  Theorem jobmapX_crash_free br p st : NoDup (runlist p st) ->
+    (forall nm, In nm (runlist p st) -> crashes nm (cnt st nm) = false) ->
+    jobmapX br p st = jobmap outcome p st.
+  Proof.
+    intros Hnd Hc. unfold Jobmap.jobmapX, jobmapX_seen, jobmap. cbv zeta.
+    rewrite runlist_seen_refreshed, todo_seen_refreshed. rewrite (fold_crash_free br p _ st Hnd Hc). reflexivity.
+  Qed.
+
+  Lemma exec_foldX br p l : forall st, NoDup l ->
+    let st' := fold_left (exec_oneX br p) l st in
+    js_src st' = js_src st /\ js_dst st' = js_dst st
+    /\ (forall nm, dget nm (js_cache st') = if mem nm l then after_exec br p st nm else dget nm (js_cache st))
+    /\ (forall nm, cnt st' nm = if mem nm l then (cnt st nm + 1)%N else cnt st nm).
+  Proof.
+    induction l as [|a l IH]; intros st Hnd; cbv zeta; simpl fold_left.
+    - repeat split.
+    - inversion Hnd as [|? ? Ha Hnd']; subst.
+      destruct (IH (exec_oneX br p st a) Hnd') as (Hs & Hd & Hc & Hn). cbv zeta in *.
+      destruct (src_dst_exec_oneX br p st a) as [Hs1 Hd1].
+      split; [now rewrite Hs|]. split; [now rewrite Hd|]. split.
+      + intro nm. rewrite Hc. unfold mem. simpl. fold (mem nm l).
+        destruct (String.eqb nm a) eqn:E; simpl.
+        * apply String.eqb_eq in E. subst nm. apply mem_false in Ha. rewrite Ha. apply cache_exec_oneX_same.
+        * assert (Hne : nm <> a) by (intro; subst; now rewrite String.eqb_refl in E).
+          destruct (mem nm l) eqn:Em; [|now apply cache_exec_oneX_other].
+          unfold after_exec, Jobmap.fresh. rewrite cnt_exec_oneX, E. rewrite (cache_exec_oneX_other br p st a nm Hne). reflexivity.
+      + intro nm. rewrite Hn. unfold mem. simpl. fold (mem nm l). rewrite cnt_exec_oneX.
+        destruct (String.eqb nm a) eqn:E; simpl.
+        * apply String.eqb_eq in E. subst nm. apply mem_false in Ha. now rewrite Ha.
+        * reflexivity.
+  Qed.
+
+  (* one run, pointwise, with runners that may die *)
+  Theorem jobmapX_spec br p st : NoDup (map fst (js_src st)) -> NoDup (runlist p st) ->
+    let st' := jobmapX br p st in
+    js_src st' = js_src st
+    /\ (forall nm, cnt st' nm = if mem nm (runlist p st) then (cnt st nm + 1)%N else cnt st nm)
+    /\ (forall nm, dget nm (js_cache st') = if mem nm (runlist p st) then after_exec br p st nm else dget nm (js_cache st))
+    /\ (forall k, dget k (js_dst st') =
+          match dget k (js_dst st) with
+          | Some v => Some v
+          | None => match find (key_is k) (js_src st) with
+                    | Some kl => all_good (js_cache st') (names p kl)
+                    | None => None
+                    end
+          end).
+  Proof.
+    intros Hk Hr. cbv zeta. unfold Jobmap.jobmapX, jobmapX_seen. cbv zeta.
+    rewrite runlist_seen_refreshed, todo_seen_refreshed.
+    destruct (exec_foldX br p (runlist p st) st Hr) as (Hs & Hd & Hc & Hn). cbv zeta in *.
+    set (st1 := fold_left (exec_oneX br p) (runlist p st) st) in *. simpl.
+    split; [exact Hs|]. split; [exact Hn|]. split; [exact Hc|].
+    intro k. rewrite finalise_fold by now apply todo_keys_nodup.
+    rewrite find_todo by exact Hk. rewrite Hd.
+    destruct (dget k (js_dst st)) as [v|] eqn:Ed; [reflexivity|].
+    destruct (find (key_is k) (js_src st)) as [kl|]; [|reflexivity].
+    now destruct (all_good (js_cache st1) (names p kl)).
+  Qed.
+
+  Lemma after_exec_valid_iff p st nm :
+    valid p (after_exec false p st nm) = true <-> crashes nm (cnt st nm) = false /\ outcome nm (cnt st nm) = OSucceed.
+  Proof.
+    unfold after_exec. destruct (crashes nm (cnt st nm)).
+    - simpl. split; [discriminate|intros [H _]; discriminate].
+    - rewrite (fresh_valid_iff outcome). tauto.
+  Qed.
+
+  Lemma after_exec_good_iff p st nm :
+    good (after_exec false p st nm) <> None <-> crashes nm (cnt st nm) = false /\ outcome nm (cnt st nm) = OSucceed.
+  Proof.
+    unfold after_exec. destruct (crashes nm (cnt st nm)).
+    - simpl. split; [congruence|intros [H _]; discriminate].
+    - rewrite (fresh_good_iff outcome). tauto.
+  Qed.
+
+  Lemma all_good_args cache l : forall v, all_good cache l = Some v ->
+    forall x, In x v -> exists nm o, In nm l /\ good (dget nm cache) = Some o /\ x = (o_arg o, o_attempt o).
+  Proof.
+    induction l as [|a l IH]; intros v H x Hx; simpl in H.
+    - injection H as <-. destruct Hx.
+    - destruct (good (dget a cache)) as [o|] eqn:Eg; [|discriminate].
+      destruct (all_good cache l) as [w|] eqn:Ea; [|discriminate]. injection H as <-.
+      destruct Hx as [<-|Hx].
+      + exists a, o. repeat split; [now left|exact Eg].
+      + destruct (IH w eq_refl x Hx) as [nm [o' (H1 & H2 & H3)]]. exists nm, o'. repeat split; [now right|exact H2|exact H3].
+  Qed.
+
+  Lemma good_inv e o : good e = Some o -> e = Some (COut o) /\ o_code o = 0%Z.
+  Proof.
+    unfold good. destruct e as [[|o']|]; try discriminate.
+    destruct (Z.eqb (o_code o') 0) eqn:E; simpl; [|discriminate]. destruct (o_file o'); [|discriminate].
+    intro H. injection H as <-. apply Z.eqb_eq in E. now split.
+  Qed.
+
+  (* "a cached output from a different input is not reused": under strict_hash every new entry of the destination is
+     made of outputs of THIS input only, whichever runners die *)
+  Theorem stored_is_of_this_input p st kl v : NoDup (map fst (js_src st)) -> NoDup (runlist p st) -> jp_strict p = true ->
+    In kl (js_src st) -> dget (fst kl) (js_dst st) = None ->
+    dget (fst kl) (js_dst (jobmapX false p st)) = Some v -> value_of_arg (jp_arg p) v = true.
+  Proof.
+    intros Hk Hr Hstrict Hin Hd0 Hv.
+    destruct (jobmapX_spec false p st Hk Hr) as (_ & _ & Hc & Hd). cbv zeta in *.
+    rewrite Hd, Hd0, (find_key_in (fst kl) (js_src st) kl Hk Hin eq_refl) in Hv.
+    unfold value_of_arg. apply forallb_forall. intros x Hx.
+    destruct (all_good_args _ _ _ Hv x Hx) as [nm [o (Hnm & Hg & ->)]]. simpl.
+    apply good_inv in Hg. destruct Hg as [Hg Hcode]. rewrite Hc in Hg.
+    destruct (mem nm (runlist p st)) eqn:Em.
+    - unfold after_exec in Hg. destruct (crashes nm (cnt st nm)); [discriminate|].
+      injection Hg as <-. unfold Jobmap.fresh. rewrite o_arg_out_of. apply String.eqb_refl.
+    - destruct (valid p (dget nm (js_cache st))) eqn:Ev.
+      + rewrite Hg in Ev. simpl in Ev. rewrite Hstrict in Ev. simpl in Ev. apply andb_prop in Ev. tauto.
+      + exfalso. apply mem_false in Em. apply Em. apply in_runlist. exists kl. now repeat split.
+  Qed.
+
+  (* resume: a rerun executes exactly the items whose execution failed OR whose runner died in the previous run *)
+  Theorem resumeX p st nm : NoDup (map fst (js_src st)) -> NoDup (all_names p st) ->
+    In nm (runlist p (jobmapX false p st)) <->
+    In nm (runlist p st) /\ (crashes nm (cnt st nm) = true \/ failed (outcome nm (cnt st nm))).
+  Proof.
+    intros Hk Ha. pose proof (runlist_nodup outcome p st Ha) as Hr.
+    destruct (jobmapX_spec false p st Hk Hr) as (Hs & _ & Hc & Hd). cbv zeta in *.
+    rewrite !in_runlist. rewrite Hs. split.
+    - intros [kl (Hin & Hdn & Hn & Hv)].
+      assert (Hd0 : dget (fst kl) (js_dst st) = None).
+      { rewrite Hd in Hdn. now destruct (dget (fst kl) (js_dst st)). }
+      rewrite Hc in Hv. destruct (mem nm (runlist p st)) eqn:Em.
+      + split; [exists kl; apply mem_spec, in_runlist in Em; destruct Em as [kl' (H1 & H2 & H3 & H4)];
+                repeat split; try assumption; exact H4|].
+        destruct (crashes nm (cnt st nm)) eqn:Ecr; [now left|right].
+        intro Hok. assert (Hval : valid p (after_exec false p st nm) = true) by (apply after_exec_valid_iff; now split).
+        congruence.
+      + exfalso. apply mem_false in Em. apply Em. apply in_runlist. exists kl. now repeat split.
+    - intros [[kl (Hin & Hd0 & Hn & Hv)] Hf].
+      assert (Em : mem nm (runlist p st) = true).
+      { apply mem_spec, in_runlist. exists kl. now repeat split. }
+      assert (Hbad : ~ (crashes nm (cnt st nm) = false /\ outcome nm (cnt st nm) = OSucceed)).
+      { intros [H1 H2]. destruct Hf as [Hf|Hf]; [congruence|now apply Hf]. }
+      exists kl. repeat split; try assumption.
+      + rewrite Hd, Hd0. rewrite (find_key_in (fst kl) (js_src st) kl Hk Hin eq_refl).
+        destruct (all_good (js_cache (jobmapX false p st)) (names p kl)) as [v|] eqn:Eg; [|reflexivity].
+        exfalso. apply (all_good_some _ _ _ Eg nm Hn). rewrite Hc, Em.
+        destruct (good (after_exec false p st nm)) eqn:E; [|reflexivity].
+        exfalso. apply Hbad. apply (after_exec_good_iff p st nm). congruence.
+      + rewrite Hc, Em. destruct (valid p (after_exec false p st nm)) eqn:E; [|reflexivity].
+        exfalso. apply Hbad. now apply (after_exec_valid_iff p st nm).
+  Qed.
+
+  (* an item whose runner died is not in the destination afterwards *)
+  Theorem crashed_item_not_stored p st kl nm : NoDup (map fst (js_src st)) -> NoDup (all_names p st) ->
+    In kl (js_src st) -> In nm (names p kl) -> In nm (runlist p st) -> crashes nm (cnt st nm) = true ->
+    dget (fst kl) (js_dst (jobmapX false p st)) = None.
+  Proof.
+    intros Hk Ha Hin Hnm Hrun Hcr.
+    assert (Hr2 : In nm (runlist p (jobmapX false p st))) by (apply resumeX; [exact Hk|exact Ha|]; split; [exact Hrun|now left]).
+    apply in_runlist in Hr2. destruct Hr2 as [kl' (Hin' & Hd' & Hn' & _)].
+    pose proof (runlist_nodup outcome p st Ha) as Hr.
+    destruct (jobmapX_spec false p st Hk Hr) as (Hs & _). cbv zeta in Hs. rewrite Hs in Hin'.
+    assert (kl' = kl) by (apply (flat_map_unique (names p) (js_src st) Ha kl' kl nm); assumption).
+    now subst kl'.
+  Qed.
+End JobmapXFacts.
+
+(* the code before repair df05caa: item a has a successful cached output of input A; it is mapped with input B
+   (strict_hash) into an empty destination and its runner dies -- the output of input A is stored as B's result.
+   With the repair nothing is stored and the old output is gone. *)
+Lemma stale_output_stored_refuted_before_repair :
+  let st := mk_js [("a", 1%nat)] [] [("a", COut (mk_out "A" 0 true 0%N))] [("a", 1%N)] in
+  let p := mk_jp "B" true false in
+  let ok := fun (_ : string) (_ : N) => OSucceed in
+  let dies := fun (_ : string) (_ : N) => true in
+  dget "a" (js_dst (jobmapX ok dies true p st)) = Some [("A", 0%N)]
+  /\ value_of_arg (jp_arg p) [("A", 0%N)] = false
+  /\ dget "a" (js_dst (jobmapX ok dies false p st)) = None
+  /\ dget "a" (js_cache (jobmapX ok dies false p st)) = None
+  /\ cnt (jobmapX ok dies false p st) "a" = 2%N.
+Proof. cbv zeta. repeat split; reflexivity. Qed.
+
+(* an output whose recorded exit code is not 0 -- a positive exit status, or the NEGATIVE number of the signal that
+   killed the command -- is neither reused by the cache test nor processed by the finalisation *)
+Lemma ecode_nonzero e : ecode_Z e <> 0%Z.
+Proof. destruct e; discriminate. Qed.
+
+Lemma failed_output_rejected p o : o_code o <> 0%Z -> valid p (Some (COut o)) = false /\ good (Some (COut o)) = None.
+Proof. intro H. apply Z.eqb_neq in H. unfold valid, good. rewrite H. split; [apply andb_false_r|reflexivity]. Qed.
